@@ -22,6 +22,10 @@ class Unsupported(Exception):
     pass
 
 
+class SymKey(Unsupported):
+    pass
+
+
 class UnwindLimit(Exception):
     pass
 
@@ -75,9 +79,10 @@ class SliceV:
 
 
 class MapV:
-    __slots__ = ('d', 'ktid', 'vtid', 'tag')
+    __slots__ = ('d', 'ktid', 'vtid', 'tag', 'sym')
     def __init__(self, ktid, vtid):
         self.d = {}  # hashable key -> (key value, value)
+        self.sym = []  # entries [key, value] whose key is symbolic (association list)
         self.ktid = ktid; self.vtid = vtid; self.tag = None
     def __repr__(self):
         return 'Map%s' % ({k: v[1] for k, v in self.d.items()},)
@@ -890,14 +895,14 @@ class Interp:
         if isinstance(k, SymStr):
             if all(not is_sym(b) for b in k.b):
                 return bytes(k.b)
-            raise Unsupported('symbolic string as map key')
+            raise SymKey('symbolic string as map key')
         if is_sym(k):
             s = z3.simplify(k)
             if z3.is_bv_value(s):
                 return s.as_long()  # caller should have normalised
             if z3.is_fp_value(s):
                 return ('F', str(s))
-            raise Unsupported('symbolic map key')
+            raise SymKey('symbolic map key')
         if isinstance(k, Closure) or isinstance(k, MapV) or isinstance(k, SliceV):
             self.rt_panic('hash of unhashable type')
         h = getattr(k, 'hkey', None)
@@ -905,22 +910,54 @@ class Interp:
             return h()
         raise Unsupported('map key %r' % (k,))
 
+    def key_eq(self, a, b, ktid):
+        if self.T.kind(ktid) == 'interface':
+            return self.iface_eq(a, b)
+        return self.binop('==', a, b, ktid, ktid)
+
+    def map_find(self, m, key):
+        """returns ('d', hkey) | ('s', index) | None; forks when the key or stored keys are symbolic"""
+        try:
+            hk = self.hkey(key)
+            conc = True
+        except SymKey:
+            conc = False
+        if conc and not m.sym:
+            return ('d', hk) if hk in m.d else None
+        if conc and hk in m.d:
+            return ('d', hk)
+        cands = []
+        if not conc:
+            for k_, (kk, vv) in m.d.items():
+                cands.append((('d', k_), kk))
+        for n, (kk, vv) in enumerate(m.sym):
+            cands.append((('s', n), kk))
+        alts = []
+        keep = []
+        for where, kk in cands:
+            c = self.key_eq(key, kk, m.ktid)
+            if c is False:
+                continue
+            if c is True:
+                return where
+            alts.append(c); keep.append(where)
+        if not alts:
+            return None
+        k = self.fork(alts + [z3.Not(z3.Or(alts))])
+        if k == len(alts):
+            return None
+        return keep[k]
+
     def map_lookup(self, m, key, vt):
         h = getattr(m, 'lookup', None)
         if h is not None:
             return h(self, key, vt)
-        if is_sym(key) and not z3.is_bv_value(z3.simplify(key)):
-            # symbolic key over concrete-key map: fork over entries
-            keys = list(m.d.keys())
-            alts = [key == k for k in keys]
-            kk = self.fork(alts + [z3.And([key != k for k in keys]) if keys else True])
-            if kk == len(keys):
-                return self.T.zero(vt), False
-            return copyval(m.d[keys[kk]][1]), True
-        e = m.d.get(self.hkey(key))
-        if e is None:
+        w = self.map_find(m, key)
+        if w is None:
             return self.T.zero(vt), False
-        return copyval(e[1]), True
+        if w[0] == 'd':
+            return copyval(m.d[w[1]][1]), True
+        return copyval(m.sym[w[1]][1]), True
 
     def op_MapUpdate(self, i, regs, fr):
         m = self.get(regs, i['m'])
@@ -933,10 +970,17 @@ class Interp:
         h = getattr(m, 'update', None)
         if h is not None:
             h(self, key, v); return
-        if is_sym(key):
-            keys = list(m.d.keys())
-            key = self.concretize(key)
-        m.d[self.hkey(key)] = (key, copyval(v))
+        w = self.map_find(m, key)
+        if w is not None:
+            if w[0] == 'd':
+                m.d[w[1]] = (m.d[w[1]][0], copyval(v))
+            else:
+                m.sym[w[1]] = [m.sym[w[1]][0], copyval(v)]
+            return
+        try:
+            m.d[self.hkey(key)] = (key, copyval(v))
+        except SymKey:
+            m.sym.append([key, copyval(v)])
 
     def op_MakeMap(self, i, regs, fr):
         u = self.T.under(i['t'])
@@ -1103,7 +1147,7 @@ class Interp:
         h = getattr(m, 'items', None)
         if h is not None:
             return h(self)
-        items = [(kv[0], kv[1]) for kv in m.d.values()]
+        items = [(kv[0], kv[1]) for kv in m.d.values()] + [(kv[0], kv[1]) for kv in m.sym]
         if self.map_order_hook is not None:
             items = self.map_order_hook(self, m, items)
         return items
@@ -1216,7 +1260,10 @@ class Interp:
         if name == 'delete':
             m, k = args
             if m is not None:
-                m.d.pop(self.hkey(k), None)
+                w = self.map_find(m, k)
+                if w is not None:
+                    if w[0] == 'd': m.d.pop(w[1], None)
+                    else: m.sym.pop(w[1])
             return None
         if name == 'panic':
             raise GoPanic(args[0])
@@ -1237,7 +1284,7 @@ class Interp:
         if isinstance(x, SliceV): return x.len
         if isinstance(x, MapV):
             h = getattr(x, 'length', None)
-            return h(self) if h else len(x.d)
+            return h(self) if h else len(x.d) + len(x.sym)
         if x is None: return 0
         if isinstance(x, ArrayV): return len(x.a)
         if isinstance(x, Ptr):
@@ -1500,8 +1547,12 @@ class Interp:
         elif tok == '-': r = z3.fpSub(FP_RM, x, y)
         elif tok == '*': r = z3.fpMul(FP_RM, x, y)
         elif tok == '/': r = z3.fpDiv(FP_RM, x, y)
-        elif tok == '==': return self.simp_bool(z3.fpEQ(x, y))
-        elif tok == '!=': return self.simp_bool(z3.Not(z3.fpEQ(x, y)))
+        elif tok == '==':
+            if x.eq(y): return self.simp_bool(z3.Not(z3.fpIsNaN(x)))   # t == t  <=>  t is not NaN
+            return self.simp_bool(z3.fpEQ(x, y))
+        elif tok == '!=':
+            if x.eq(y): return self.simp_bool(z3.fpIsNaN(x))
+            return self.simp_bool(z3.Not(z3.fpEQ(x, y)))
         elif tok == '<': return self.simp_bool(z3.fpLT(x, y))
         elif tok == '<=': return self.simp_bool(z3.fpLEQ(x, y))
         elif tok == '>': return self.simp_bool(z3.fpGT(x, y))
